@@ -48,6 +48,10 @@ type BSCase struct {
 	High     bool      `json:"high,omitempty"` // file numbers so high that positions exceed 32 bits (Config.StartPrim)
 	Blocks   []BSBlock `json:"blocks"`
 	Ops      []BSOp    `json:"ops"`
+	// Twins: the last block is addressed by an identity multihash whose
+	// digest bytes equal the sha2-256 digest of block 0 (two different
+	// multihashes with the same digest).
+	Twins bool `json:"twins,omitempty"`
 }
 
 const c15Rule = "rapid-generated sequences of blockstore calls (Put, PutMany, Get, Has, GetSize, DeleteBlock, HashOnRead on/off), each with a live or an already cancelled context, over blocks of 0..200 bytes (+70 KiB) addressed by CIDv0/v1 x raw/dag-pb/dag-cbor x sha2-256/sha2-512/sha3-512/blake2b-256/blake2b-512/identity up to 300 bytes (multihashes of more than 64 bytes included; sha2 digests also truncated, one length per function and case) built with Prefix.Sum, CID variants of one multihash used interchangeably, deliberately mismatching (data, CID) pairs, 8..12 index bits so blocks share buckets, optionally with the periodic flusher running, and close/reopen of the blockstore between calls; " +
@@ -487,6 +491,63 @@ func TestC15(t *testing.T) {
 			}
 		}
 		ev.Record(c, st.variants && st.del && st.horOn && st.horOff, cl...)
+		if v != nil && ev.Report(v, c) {
+			rt.Fatalf("%v", v)
+		}
+	})
+	if t.Failed() {
+		return
+	}
+	// Digest twins: two different multihashes (sha2-256 and identity) whose
+	// digest bytes are equal. The store keys by digest only (KF-C15): a few
+	// cases confirm the finding, all others run without the twin.
+	twinCases := 0
+	setRapidChecks(budget(200, 600))
+	rapid.Check(t, func(rt *rapid.T) {
+		if pastDeadline() {
+			ev.Skip()
+			return
+		}
+		c := genBS(rt)
+		c.Blocks[0].Hash, c.Blocks[0].MhLen, c.Blocks[0].Wrong = mh.SHA2_256, 0, false
+		for i := range c.Blocks {
+			if c.Blocks[i].Hash == mh.SHA2_256 {
+				c.Blocks[i].MhLen = 0
+			}
+			if c.Blocks[i].Hash == mh.IDENTITY {
+				// keep identity digests prefix-free next to the 32-byte twin
+				d := make([]byte, 32)
+				copy(d, c.Blocks[i].Data)
+				d[31] = byte(i + 1)
+				d[30] = 0xee
+				c.Blocks[i].Data = d
+			}
+		}
+		cl := []string{"digest-twins"}
+		twinCases++
+		if twinCases <= 6 {
+			h, err := mh.Sum(c.Blocks[0].Data, mh.SHA2_256, -1)
+			if err != nil {
+				panic(infraError{err})
+			}
+			dec, err := mh.Decode(h)
+			if err != nil {
+				panic(infraError{err})
+			}
+			twin := len(c.Blocks)
+			c.Blocks = append(c.Blocks, BSBlock{Data: append(HexBytes{}, dec.Digest...), Hash: mh.IDENTITY, Version: 1, Codec: cid.Raw})
+			c.Twins = true
+			// Both are stored and read back.
+			c.Ops = append([]BSOp{{K: "put", Blk: 0}, {K: "put", Blk: twin}, {K: "get", Blk: twin}, {K: "get", Blk: 0}}, c.Ops...)
+			cl = append(cl, "digest-twins:sha2-256-and-identity-with-equal-digest-bytes")
+		} else {
+			cl = append(cl, "digest-twins:twin-left-out(known finding excluded by construction)")
+		}
+		_, v := runBS(c)
+		ev.Record(c, c.Twins, cl...)
+		if v != nil && c.Twins {
+			v.Signature += "|digest-twins-across-hash-functions"
+		}
 		if v != nil && ev.Report(v, c) {
 			rt.Fatalf("%v", v)
 		}
